@@ -65,3 +65,30 @@ def replay(ctx, path):
     r = ctx.tlc_trace("Trace_C04", out)
     ctx.traces += 1
     ctx.add_rejects(r)
+
+
+def selftest(ctx):
+    """Binding self-test: corrupt one field of recorded events and expect exactly those events to
+    be rejected (guards against a trace spec that constrains nothing)."""
+    import json
+    ctx.build(["c04"])
+    p = ctx.record("c04", ["--mode", "wide", "--n", 300], "selftest.ndjson")
+    evs = ctx.read_ndjson(p)
+    bad = set()
+    for i, e in enumerate(evs):
+        if i % 7 == 3 and "ok" in e.get("res", {}):
+            v = e["res"]["ok"]["v"]
+            v[0] = (v[0] + 1) % 2 if e["res"]["ok"]["w"] == 1 else (v[0] ^ 1)
+            bad.add(i + 1)
+        elif i % 11 == 5 and "err" in e.get("res", {}):
+            e["res"] = {"ok": {"w": e["a"]["w"], "v": e["a"]["v"]}}
+            bad.add(i + 1)
+    q = p + ".mut"
+    with open(q, "w") as f:
+        for e in evs:
+            f.write(json.dumps(e) + "\n")
+    r = ctx.tlc_trace("Trace_C04", q)
+    got = {rj["line"] for rj in r.rejects}
+    core.log("selftest: corrupted %d events, rejected %d, unexpected %d, missed %d" % (
+        len(bad), len(got), len(got - bad), len(bad - got)))
+    return len(bad) > 10 and got == bad
